@@ -126,6 +126,7 @@ def run_check(prop, tier, seed, keep=False):
         hashes = set()
         samples = []
         clause_counts = {}
+        leniency = {}
         checker_cmd = ''
         known = load_known()
         os.makedirs(os.path.join(VERIF, 'replays'), exist_ok=True)
@@ -145,6 +146,14 @@ def run_check(prop, tier, seed, keep=False):
             states += res.get('distinct', 0)
             transitions += res.get('states', 0)
             checker_cmd = checker_cmd or res.get('cmd', '')
+            if res.get('info'):
+                evs = None
+                for eid, tag in res['info']:
+                    if evs is None:
+                        evs = [json.loads(l) for l in open(path)]
+                    lab = evs[eid - 1].get('label', '?')
+                    lab = lab.rstrip('0123456789').rstrip('-')
+                    leniency[lab] = leniency.get(lab, 0) + 1
             if not rej:
                 continue
             mach = [r for r in rej if r['prop'] == 'MACHINERY']
@@ -197,6 +206,7 @@ def run_check(prop, tier, seed, keep=False):
                 'checker_cmd': checker_cmd, 'mc_runs': mc_runs, 'events_by_kind': clause_counts,
                 'exhaustive': bool(cfg.get('exhaustive', False)),
                 'known_findings_hit': sorted(set(s for s, _ in known_hits)),
+                'leniency': leniency,
             },
             'assumptions': cfg.get('assumptions', []) + [
                 'TLC 1.8 and the CommunityModules Json reader are correct',
@@ -204,6 +214,14 @@ def run_check(prop, tier, seed, keep=False):
                 'the TLA+ reference codec (spec/*.tla) is a faithful reading of AMQP 0-9-1 + RabbitMQ errata'],
             'wall_s': round(time.time() - t0, 2), 'violations': len(set(s for s, _, _ in violations)),
         }
+        # information only (never a verdict): families of malformed inputs the decoder accepts, against the pinned set
+        pin_path = os.path.join(VERIF, 'leniency_pin.json')
+        if leniency and os.path.exists(pin_path):
+            pin = json.load(open(pin_path)).get(prop)
+            if pin is not None:
+                new_fams = sorted(set(leniency) - set(pin))
+                if new_fams:
+                    print('LENIENCY-INFO property=%s malformed input families now accepted that were refused when pinned: %s' % (prop, new_fams))
         os.makedirs(os.path.join(VERIF, 'evidence'), exist_ok=True)
         json.dump(ev, open(os.path.join(VERIF, 'evidence', prop + '.json'), 'w'), indent=1)
         print('%s %s: %d events judged by TLC, %d distinct non-trivial, %d MC runs, %d states, %.1fs, %d violation signature(s)'
